@@ -3,6 +3,7 @@ package c02
 import (
 	"fmt"
 	"math/big"
+	"sync/atomic"
 
 	"github.com/bronlabs/bron-crypto/pkg/base/algebra"
 	"github.com/bronlabs/bron-crypto/pkg/mpc/sharing"
@@ -70,11 +71,22 @@ type adapter[S any] struct {
 	witness func(x *engine.X, d *dealing[S], mask uint64, sPrime *big.Int) (*dealing[S], string)
 }
 
+// dealStats are per-section totals attached to the evidence as a note (vacuity check: witnesses really are built).
+type dealStats struct {
+	qualified, unqualified, witnesses, witnessSkipped, unrefusedAdditive, linear atomic.Int64
+}
+
+func (st *dealStats) note(sec *engine.Section) {
+	sec.Note("qualified reconstructions=%d unqualified refusals checked=%d privacy witnesses pushed through the library=%d witnesses not expressible (degree-deficient polynomial)=%d unqualified additive conversions that were not refused (Shamir/ISN, observed only)=%d linearity reconstructions=%d",
+		st.qualified.Load(), st.unqualified.Load(), st.witnesses.Load(), st.witnessSkipped.Load(), st.unrefusedAdditive.Load(), st.linear.Load())
+}
+
 type dealOpts struct {
 	fullCross bool  // secret x randomness cross product on the "ord" assignment
 	secrets   []int // secret indices used when not crossing (default: mid)
 	linear    bool
 	noCross   func(catalog.Entry) bool // entries visited with the mid secret and seeded randomness only
+	stats     *dealStats
 }
 
 func guard(x *engine.X, key, what string, f func()) (ok bool) {
@@ -128,7 +140,7 @@ func dealBody[S any, F algebra.PrimeFieldElement[F]](c fctx[F], scheme string, c
 		}
 		full := p.Full()
 		dummies := dummyParties(p)
-		var nq, nwit, nskip, unrefused int
+		var nq, nunq, nwit, nskip, unrefused, nlin int
 		for a := uint64(0); a <= full; a++ {
 			want := p.Qualified(a)
 			sub := catalog.Subset(ids, a)
@@ -162,7 +174,7 @@ func dealBody[S any, F algebra.PrimeFieldElement[F]](c fctx[F], scheme string, c
 				} else if got.Cmp(s) != 0 {
 					x.Failf(scheme+"/reconstruct-value", "%s: Reconstruct over the qualified set %v returned %s, dealt %s", key, sub, got.Text(16), s.Text(16))
 				}
-			} else if err == nil {
+			} else if nunq++; err == nil {
 				x.Failf(scheme+"/reconstruct-unqualified", "%s: Reconstruct accepted the unqualified set %v (returned %s, dealt %s)", key, sub, got.Text(16), s.Text(16))
 			}
 			// additive conversion
@@ -267,6 +279,7 @@ func dealBody[S any, F algebra.PrimeFieldElement[F]](c fctx[F], scheme string, c
 						continue
 					}
 					x.Case(fmt.Sprintf("%s/add%d/%d", key, s2i, a))
+					nlin++
 					var got *big.Int
 					var err error
 					if guard(x, scheme+"/panic/reconstruct", key, func() { got, err = ad.reconstruct(sum.pick(a, false)) }) && (err != nil || got.Cmp(want) != 0) {
@@ -291,6 +304,7 @@ func dealBody[S any, F algebra.PrimeFieldElement[F]](c fctx[F], scheme string, c
 						continue
 					}
 					x.Case(fmt.Sprintf("%s/mul%d/%d", key, ki, a))
+					nlin++
 					var got *big.Int
 					var err error
 					if guard(x, scheme+"/panic/reconstruct", key, func() { got, err = ad.reconstruct(sc.pick(a, true)) }) && (err != nil || got.Cmp(want) != 0) {
@@ -313,6 +327,14 @@ func dealBody[S any, F algebra.PrimeFieldElement[F]](c fctx[F], scheme string, c
 					}
 				}
 			}
+		}
+		if opt.stats != nil {
+			opt.stats.qualified.Add(int64(nq))
+			opt.stats.unqualified.Add(int64(nunq))
+			opt.stats.witnesses.Add(int64(nwit))
+			opt.stats.witnessSkipped.Add(int64(nskip))
+			opt.stats.unrefusedAdditive.Add(int64(unrefused))
+			opt.stats.linear.Add(int64(nlin))
 		}
 		x.Observe(key, nq, nwit, nskip, unrefused)
 	}
